@@ -22,8 +22,9 @@ CLAIMS['C01'] = ('proof', 'Lean 4 theorems (address arithmetic, abstract pack/Al
     'direct_step_correct (padded uneven blocks included), route_transpose_correct_nobuf/_buf (odd and even routes, source intact with a spare buffer) '
     'about Model/Handler.lean; transpose_defect_a1_zero is the kernel-evaluated witness of the defect repaired by fix: c48bf2a. The executable model '
     '(statement-by-statement transcription with strided views, Alltoall on all ranks) is compared exactly with the real code: connections, bufferSize, '
-    'route map, every destination block, source intactness, refusals. Bridge between the executable direct step and the abstract step theorem is by '
-    'per-case evaluation of the model (holds flag), not a theorem: stated in DESIGN.md.',
+    'route map, every destination block, source intactness, refusals. Props/C01Extra.lean proves the bridge: the EXECUTABLE directStep (views, padded blocks, both '
+    'rearrange branches) satisfies the step contract for every well-formed handler and accepted pair (directStep_correct, directStep_satisfies_contract), and '
+    'transposeWorld_correct(_bufferSize) is the end-to-end statement for the executable transpose; bufferSize_suffices.',
     NOTE_COMMON, 'DESIGN.md 4/C01')
 CLAIMS['C04'] = ('proof', 'Lean 4 refinement theorem (induction over operation histories) on a state-machine model of Grid + exact correspondence with real Grid objects',
     'grid_refines_spec: for every history of set-layout/write/save/restore/free (any length) the buffer-index state machine of grid.py refuses exactly '
@@ -45,7 +46,7 @@ CLAIMS['C06'] = ('proof', 'Lean 4 theorems about an abstract machine of blocking
     'count/datatype agreement is checked at every rendezvous. Model/Traces.lean predicts each rank\'s (communicator, operation, counts) for handler/swapper construction and '
     'all transposes: compared exactly. Route choice: real _makeConnectionMap in interpreters with different PYTHONHASHSEED, compared with each other, with the model under '
     'several tie-break orders, and with a BFS shortest-path oracle. Also run: grid reductions/figure blocks with a plot-only rank, and the real driver for one step.',
-    NOTE_COMMON + ' Real MPI semantics (blocking collectives matched per communicator in program order) are assumed; route determinism is established by correspondence + oracle, not by a theorem.', 'DESIGN.md 4/C06')
+    NOTE_COMMON + ' Real MPI semantics (blocking collectives matched per communicator in program order) are assumed; route determinism is a theorem (C06Extra.route_deterministic / route_canonical, for distinct layout names), additionally run under different PYTHONHASHSEED.', 'DESIGN.md 4/C06')
 CLAIMS['C05'] = ('proof', 'Lean 4 theorems on a model of the grid-level loops (which index expressions reach the kernels) + exact wiring-trace correspondence on the real operators + end-to-end serial-vs-parallel oracle',
     'wiring_flux / wiring_vpar / wiring_pargrad / wiring_poloidal / wiring_density / wiring_solve / wiring_init: for every layout, process grid and rank each kernel call gets the '
     'parameters of its slice\'s own global coordinates; gridop_decomposition_independent: hence the assembled global result equals kern(T g)(F g) for every number of ranks (kernel '
@@ -124,6 +125,20 @@ CLAIMS['C16'] = ('proof', 'Lean 4 theorems on a transcription of get_rho/get_per
 PENDING = {
 }
 ALL = ['C%02d' % i for i in range(1, 21)]
+
+
+ADDENDA = {
+    'C02': ' Props/C02Extra.lean: bufferSize_ge_size(_of_accepted) etc. - every block of every layout of an accepted handler fits the advertised buffer on every rank.',
+    'C03': ' Props/C03Extra.lean: compatible_sound_differ_by_one, unmatched_dimension_not_distributed, commAxes_length/nodup - soundness of the differ-by-one branch of _compatibleLayout/getAxes.',
+    'C06': ' Props/C06Extra.lean: route_deterministic (any two iteration orders give the same routes/distances/connectedness for distinct names), route_canonical (graph distance, lexicographically least shortest path), route_nodup_needed.',
+    'C05': ' C05.timestep_decomposition_independent (Props/C15Extra.lean, over the loop body REGENERATED from fullSimulation.py): runs on two decompositions whose grid-level operators assemble to the same global operators agree, for a step and for a whole run.',
+    'C08': ' Props/C08Extra.lean: marsden_identity, polynomial_in_spline_space, greville_reproduces_identity, poly_reproduction (full clause; injectivity of the collocation matrix is the one explicit hypothesis).',
+    'C09': ' Props/C09Extra.lean: integrals_antiderivative (full clause for sorted knots with simple interior knots), periodic_tail_antiderivative, interior_integral_full, uniform_periodic_equal_weights_low_degree (degrees 1-6 unconditional; >=7 under unisolvence).',
+    'C15': ' Props/C15Extra.lean: equilibrium_fixed_point(_passes,_run,_kernels), equilibrium_initial_potential about the REGENERATED loop body: (f_eq, phi=0) is kept by one pass, any number of passes, pre and post; kernel contracts instantiated from C10-C13/C15/C16, layout/save/restore contracts remain hypotheses.',
+}
+for _k, _v in ADDENDA.items():
+    _c = CLAIMS[_k]
+    CLAIMS[_k] = (_c[0], _c[1], _c[2] + _v, _c[3], _c[4])
 
 
 def main():
